@@ -29,6 +29,7 @@ func init() {
 			"(R6) stageFromRoot reports success only as the store's Contains(path, digest) verdict after a complete copy; " +
 			"(R7) package rsync creates or opens no file for writing except through Sinker.Sink; " +
 			"(R8) in the cross-device fallback the intermediate copy is chmod-ed and renamed into the root only on paths where io.CopyBuffer reported no error, and every error exit removes it (same rule as C09.R5). " +
+			"(R4 addition) every return of Store.target yields a name and prefix computed from THIS call's digest (a remembered result keyed on the path alone would name other content); " +
 			"Not decided: collision resistance of the digest; that bytes on disk equal bytes hashed (trusted: os.File.Write).",
 		Assumptions: []string{"hash.Hash.Sum returns the digest of the bytes written to it", "os.File.Write/Close report failures"},
 		Run:         runC10,
